@@ -210,6 +210,17 @@ def quiescent_callers(prog, res):
               "caller input is copied into the job buffer only on the !frameEnded edge",
               "ZSTDMT_compressStream_generic can load new input after the frame's last job was created: the extra job is queued behind the one flagged last, "
               "all input is reported consumed and the emitted stream cannot be decoded")
+    # the pool is read when the worker context is created: re-assigning it must drop a worker context built around the old one
+    rp = prog.fn("ZSTD_CCtx_refThreadPool")
+    setp = rp.find_roots(lambda x: x.get("k") == "asg" and strip_casts(x["lhs"]).get("f") == "pool")
+    drop = rp.call_roots("ZSTDMT_freeCCtx")
+    from ..rules import guards as _g3
+    nomt2 = _g3.truthy_edges(rp, lambda c: c.get("k") == "mem" and c.get("f") == "mtctx", truth=False)
+    same = _g3.rel_edges(rp, lambda a: any(y.get("f") == "pool" for y in walk(a)), "!=", lambda b_: True, truth=False)
+    res.check(bool(setp) and bool(drop) and rp.must_pass(via_roots=drop, via_edges=nomt2 + same, targets=setp), "T3.quiescent-before-reset", "ZSTD_CCtx_refThreadPool", rp.loc,
+              "a worker context built around another pool is dropped before the new pool is recorded",
+              "ZSTD_CCtx_refThreadPool records the pool but keeps the worker context built around the previous one: the new pool (or NULL) is silently "
+              "ignored and jobs keep being posted into the old pool, even after the caller released it")
     fc = prog.fn("ZSTD_freeCCtxContent")
     stopw = fc.call_roots("ZSTDMT_freeCCtx")
     reld = fc.call_roots(("ZSTD_clearAllDicts", "ZSTD_cwksp_free"))
